@@ -40,9 +40,9 @@ FLOORS = {
     "quick": {"evaluations": 3000, "distinct": 2000,
               "counters": {"hook_events": 6000, "subsets": 64, "events_compared": 6000,
                            "unintercepted_applications": 6000, "async_renders": 400}},
-    "thorough": {"evaluations": 150000, "distinct": 100000,
-                 "counters": {"hook_events": 400000, "subsets": 512, "events_compared": 400000,
-                              "unintercepted_applications": 400000, "async_renders": 20000}},
+    "thorough": {"evaluations": 80000, "distinct": 60000,
+                 "counters": {"hook_events": 200000, "subsets": 512, "events_compared": 200000,
+                              "unintercepted_applications": 200000, "async_renders": 12000}},
 }
 
 ALL_OPS = [("b", o) for o in G.BINOPS] + [("u", o) for o in G.UNOPS]
